@@ -76,8 +76,11 @@ func runWaits(c *sx.Node) *sx.Node {
 	case el != nil && el.Line != nil && el.Line.Text == "after":
 		out = "line"
 	}
+	// "waiting" was answered at least once - or the wait is so short (at most 2 ms) that it had run out before the
+	// runner looked at the command again: on a loaded machine the goroutine sleeping 0.3 ms can be done before Next
+	// polls it, which is not the runner blocking (durations above 2 ms must answer "waiting")
 	started := int64(0)
-	if polls > 0 {
+	if polls > 0 || (n <= 0.002 && elapsed.Seconds() >= n) {
 		started = 1
 	}
 	return sx.Tag("waited", sx.Str(out), sx.Int(started), sx.Int(elapsed.Nanoseconds()))
